@@ -401,6 +401,26 @@ def mk_route(ctx):
                 continue      # the retain form was checked against `children.contains(root)` when it was accepted as a site
             k = versionless(it.calls[bb].args[1].val)
             src = as_item(k)
+            if src is not None and whole_iteration_over(src, 1, ('roots',)):
+                # the mirror walk (a `retain` written out): every root is looked at and dropped exactly when it is a child of the node
+                from .loops import loop_of_block
+                lp_ = loop_of_block(it, bb)
+
+                def child_atom(t):
+                    if is_call(t, ('contains', 'contains_key')) and len(t[2]) == 2:
+                        pc = param_path(versionless(t[2][0]))
+                        if pc and pc[0] == 2 and pc[1][-1:] == ('children',) and as_item(t[2][1]) is not None \
+                                and versionless(as_item(t[2][1])) == versionless(src):
+                            return 'child'
+                    return gate(t) or seen(t)
+                ok_ = lp_ is not None and not lp_.early_exits()
+                for val in (True, False):
+                    rc_ = Reach(facts, body, Evaluator(facts, bool_atom=child_atom, assumption={'in_dag': False, 'in_orphans': False, 'seen': True, 'child': val}))
+                    if lp_ is None or (val and not lp_.must(rc_, [bb])) or (not val and lp_.may(rc_, [bb])):
+                        ok_ = False
+                if not ok_:
+                    errs.append('the roots that are children of the applied node are not exactly the ones dropped')
+                continue
             if src is None or not whole_iteration_over(src, 2, ('children',)):
                 errs.append('roots.remove does not range over every child of the applied node')
     ctx.check(not errs, 'apply', body, 'visible iff all children in dag; else orphan', errs[0] if errs else '', details=det)
